@@ -444,6 +444,23 @@ def run(ch, tr, st):
                             tr.ev("out", k, v)
                 else:
                     tr.ev("exc", type(ser[1]).__name__)
+            if ch.flip(1, 5, "same_objects_again"):
+                # a caller's loop that keeps its arrays: the SAME signal / frequency objects are
+                # passed to two parallel calls, the signal overwritten in place in between
+                target, build, par, desc, est_lines, base, freq = cases[-1]
+                args, kw = build()
+                if isinstance(args[0], np.ndarray) and args[0].flags.writeable and args[0].size:
+                    st.fault("same_objects_passed_again")
+                    sched.step_cap += 4 * est_lines  # two more parallel calls of this size
+                    first = _call(target, lambda: (args, kw), par)
+                    sig = args[0]
+                    sig[...] = (-sig if sig.dtype.kind in "iu" else sig * -0.5 + 1.0)
+                    expect = _call(target, lambda: (tuple(np.array(a, copy=True) if isinstance(a, np.ndarray) else a for a in args), dict(kw)), "no")
+                    p0 = len(sched.pools)
+                    c0 = len(sched.completion_order)
+                    again = _call(target, lambda: (args, kw), par)
+                    compare(target, expect, again, f"{target}(same objects passed again, signal overwritten in place)")
+                    _account(st, sched, cfg, par, p0, c0)
         finally:
             sched.shutdown()
     finally:
@@ -632,5 +649,5 @@ ASSUMPTIONS = [
 EXPECTED_FAULTS = [
     "workers_1", "workers_2_4", "workers_5_16", "workers_gt_tasks", "late_worker_start", "worker_never_started", "stall",
     "preempt_in_task", "two_workers_mid_task", "completion_order_reversed", "completion_order_permuted", "one_worker_takes_all",
-    "cpu_count_1", "auto_chose_parallel", "parent_preempted", "several_calls_one_parent", "lazy_task_feed", "deep_call",
+    "cpu_count_1", "auto_chose_parallel", "parent_preempted", "several_calls_one_parent", "lazy_task_feed", "deep_call", "same_objects_passed_again",
 ]
